@@ -16,16 +16,10 @@ type Spec_ConstFatigueParams struct {
 type Spec_ConstFatigueFunction struct {
 }
 
-type Spec_ConstFatigueFunction struct {
-}
-
 type Spec_ExpFatigueParams struct {
 	Alpha       float64 `json:"alpha"`
 	Multiplier  float64 `json:"multiplier"`
 	QueryNumber int64   `json:"queryNumber"`
-}
-
-type Spec_ExponentialFromZeroFatigue struct {
 }
 
 type Spec_ExponentialFromZeroFatigue struct {
